@@ -93,6 +93,11 @@ def run(c):
                      memoize=ev1.memo_value(w["memo"]))
     T = _T(c)
     ts = (lambda a, t: t < T) if c.get("dyn") else T
+    if (int(ca.sum()) + 3 * T + ca.shape[1]) % 4 == 0 and min(ca.shape[1:]) >= 2:
+        # what the program did before on a grid of this shape (harness/prelude.py): another automaton with radius 2, the other
+        # neighbourhood type, an evolution aborted by its rule — in the same memoize mode and in recursive mode
+        from .. import prelude
+        prelude.run2d(dict(r=1, prelude=["other_r", "other_nb", "poison", "ghost"]), ca.astype("int32"), ev1.memo_value(c["memo"]), "Moore")
     # integer / unsigned / bool grids under a strict NumPy error state and warnings as errors (a third of the runs)
     with ev1.strict_ctx(ca.dtype.kind in "iub" and (int(ca.sum()) + T) % 3 == 1):
         return cpl.evolve2d(ca, timesteps=ts, apply_rule=cpl.game_of_life_rule, r=1, neighbourhood="Moore",
